@@ -13,6 +13,12 @@ def is_exc(v):
     return isinstance(v, Exc)
 
 
+class BoolSwitch:
+    """{True: a, False: b} display: subscripted by a (possibly symbolic) bool."""
+    def __init__(self, table):
+        self.table = table
+
+
 class ExprMixin:
     # ------------------------------------------------------------ helpers
     def raising(self, st, val, excs, node):
@@ -225,6 +231,12 @@ class ExprMixin:
         return out
 
     def e_Dict(self, st, n):
+        if n.keys and all(isinstance(k, ast.Constant) and isinstance(k.value, bool) for k in n.keys) and len(n.keys) == 2:
+            # {True: a, False: b}: a two-way switch, kept python-side
+            out = []
+            for s, vals in self.ev_seq(st, list(n.values)):
+                out.append((s, vals if is_exc(vals) else BoolSwitch({k.value: v for k, v in zip(n.keys, vals)})))
+            return out
         # {k: v, **d}: association sequence; later keys override earlier ones (dmerge axioms)
         nodes = []
         for k, v in zip(n.keys, n.values):
@@ -601,6 +613,17 @@ class ExprMixin:
         return out
 
     def getitem(self, st, base, idx, node):
+        if isinstance(base, BoolSwitch):
+            if isinstance(idx, PyC) and isinstance(idx.obj, bool):
+                return [(st, base.table[idx.obj])]
+            li = self.lift(idx)
+            if not (li.sort == "B" or li.kind == "bool"):
+                self.obl("kind", node, st, f"(k_bool {asV(li)})", detail="index of a {True:..,False:..} table is a bool")
+                st.assume(f"(k_bool {asV(li)})")
+                li = Val(asV(li), kind="bool")
+            c = asB(li)
+            a, b = self.lift(base.table[True]), self.lift(base.table[False])
+            return [(st, Val(Ite(c, asV(a), asV(b)), kind=a.kind if a.kind == b.kind else None, fresh=Ite(c, a.fresh, b.fresh)))]
         if isinstance(base, PyList) and isinstance(idx, PyC) and isinstance(idx.obj, int):
             try:
                 return [(st, base.items[idx.obj])]
